@@ -3,7 +3,7 @@ CONSTANTS
   Vals = {0,1,2,3,4,5,6,7,8,9,10,11,12,13,14,15,16,17,18,19,20,21,22,23,24,25,26,27,28,29,30,31,32,33,34,35,36,37,38,39,40,41,42,43,44,45,46,47,48,49,50,51,52,53,54,55,56,57,58,59,60,61,62,63,64,128,255}
   Ports = {32765, 16381, 0, 65533, 32767, 254, 49149}
   CellVals = {0, 1}
-  LockBit = 5
+  LockBit = 4
 INVARIANT TypeOK
 INVARIANT PagingConsistent
 INVARIANT Banks52Fixed
